@@ -284,8 +284,11 @@ def impl_lines(cls_name, preserve, levels):
             out.append(f"kept {L} {' '.join(map(str, lv['kept']))} ;")
             out.append(f"mc {L} {' '.join(map(str, lv['mc']))} ;")
         if preserve:
-            out.append(f"pres {L} {lv['r_gate']} {lv['target']} {' '.join(map(str, lv['pres_wires'][:-1]))} ; "
-                       f"s{lv['ctrl_state']} ok {mstr(lv['pres_gate'])}")
+            if "pres_wires" in lv:
+                out.append(f"pres {L} {lv['r_gate']} {lv['target']} {' '.join(map(str, lv['pres_wires'][:-1]))} ; "
+                           f"s{lv['ctrl_state']} ok {mstr(lv['pres_gate'])}")
+            else:  # the real code did not call _preserve_previous at this level: an observable difference
+                out.append(f"pres {L} NOT-CALLED ;")
         for k, m in enumerate(lv["ucgmux"]):
             out.append(f"ucgmux {L} {k} ; {mstr(m)}")
         for k, c in enumerate(lv["children"]):
